@@ -39,9 +39,9 @@ pub struct Lexer {
     source: Vec<char>,
     /// The position that will be read next
     pos: usize,
-    /// The row that will be read next
+    /// The row of the character that will be read next
     row: usize,
-    /// The column that will be read next
+    /// The column of the character that will be read next
     col: usize,
 }
 
@@ -49,20 +49,12 @@ impl Lexer {
     /// Create a new lexer from a string.
     pub fn new<S: Into<String>>(source: S, id: Uuid) -> Lexer {
         let source: Vec<char> = source.into().chars().collect();
-        // `consume_char` counts a newline as column 0 of the row that follows
-        // it, so the first character of every later line sits at `col == 1`.
-        // Start in the same state, as if a newline preceded the source.
-        let (row, col) = if source.first() == Some(&'\n') {
-            (1, 0)
-        } else {
-            (0, 1)
-        };
         Lexer {
             source,
             source_id: id,
             pos: 0,
-            row,
-            col,
+            row: 0,
+            col: 0,
         }
     }
 
@@ -81,19 +73,17 @@ impl Lexer {
     /// This function will update the current character and the position
     /// of the Lexer struct.
     fn consume_char(&mut self) {
-        // Get the next character
-        if let Some(ch) = self.peek(1) {
-            // Update the position
-            if ch == '\n' {
+        // A newline is the last character of its own line: the row changes
+        // when the cursor leaves it.
+        match self.current() {
+            Some('\n') => {
                 self.row += 1;
                 self.col = 0;
-            } else {
-                self.col += 1;
             }
-            self.pos += 1;
-        } else {
-            self.pos = self.source.len();
+            Some(_) => self.col += 1,
+            None => {}
         }
+        self.pos = (self.pos + 1).min(self.source.len());
     }
 
     /// Skip ahead N characters in the source.
@@ -169,8 +159,7 @@ impl Lexer {
     ///
     /// This function will return the current position of the lexer.
     fn get_pos(&self) -> Position {
-        let column = if self.col == 0 { 0 } else { self.col - 1 };
-        Position::new(self.row, column, self.pos)
+        Position::new(self.row, self.col, self.pos)
     }
 
     /// Lex a unicode escape code.
